@@ -15,6 +15,8 @@ def consts_for(comp, sc, tso, tracing):
 
 
 def model_check(ctx, comp, sc, timeout=3000):
+    if COV:         # anchor coverage pass: only the drivers matter
+        r = TlcResult(); r.ok = True; return r
     c = consts_for(comp, sc, True, False)
     mod = gen_mc(sc, "mc" + comp.get("variant", ""), c, cfg_lines=["SPECIFICATION " + comp.get("mc_spec", "Spec")] + ["INVARIANT " + i for i in comp["invariants"] + comp.get("mc_invariants", [])] +
                  ["CONSTRAINT " + x for x in comp.get("constraints", [])] + ["CHECK_DEADLOCK FALSE"])
@@ -61,6 +63,8 @@ def validate(ctx, comp, sc, tso, runs, workdir, tag):
     """Validate a list of (seed, events) against the trace spec in one TLC run; on rejection bisect to the execution."""
     if not runs or len(ctx.violations) >= MAXV:
         return
+    if COV:
+        ctx.traces += len(runs); return
     c = consts_for(comp, sc, tso, True); c["__spec__"] = comp["spec"]
     c.update(comp.get("trace_consts", {}))
     mod = gen_trace_module(comp["trace"], comp["spec"], "TV_%s%s_%d" % (sc["name"], comp.get("variant", ""), tso), c, invariants=comp["invariants"])
